@@ -116,6 +116,23 @@ def install_curve_seams():
     get_rater.__wrapped__ = real_get_rater
     nanite.indent.get_rater = get_rater
 
+    # -- API phase bracket: which exceptions leave apply_preprocessing -----
+    real_ap = nanite.indent.Indentation.apply_preprocessing
+
+    def apply_preprocessing(self, *a, **kw):
+        prev = PLAN.phase
+        PLAN.phase = "apply"
+        PLAN.apply_calls += 1
+        try:
+            r = real_ap(self, *a, **kw)
+            PLAN.apply_returned += 1
+            return r
+        finally:
+            PLAN.phase = prev
+
+    apply_preprocessing.__wrapped__ = real_ap
+    nanite.indent.Indentation.apply_preprocessing = apply_preprocessing
+
     _installed["curve"] = True
 
 
@@ -195,3 +212,26 @@ def install_lmfit_determinism():
 
     setattr(mm.Minimizer, name, __residual)
     _installed["lmfit_det"] = True
+
+
+def install_rater_memo(memo):
+    """Serve rater constructions requested through the nanite.indent seam
+    from a per-configuration memo (construction is deterministic in the
+    configuration and costs 0.2-0.7 s). The seam still counts every request,
+    which is what the cache-hit accounting needs."""
+    if _installed.get("rater_memo"):
+        return
+    import nanite.indent
+    counting = nanite.indent.get_rater
+
+    def get_rater(regressor, training_set="zef18", names=None, lda=None,
+                  **kw):
+        PLAN.hit("get_rater")
+        if kw:
+            return counting.__wrapped__(regressor, training_set, names, lda,
+                                        **kw)
+        return memo.get(regressor, training_set, names, lda)
+
+    get_rater.__wrapped__ = counting.__wrapped__
+    nanite.indent.get_rater = get_rater
+    _installed["rater_memo"] = True
